@@ -104,7 +104,8 @@ def next_section(name="", report=MAIN_REPORT):
         if source['independent']:
             new_code = ''.join(sections[section_index])
             old_code = ''.join(sections[:section_index])
-            report.submission.set_line_offset(len(old_code.split("\n"))-1)
+            # Count the lines the way Python does: a lone \r ends a line too
+            report.submission.set_line_offset(len(re.findall(r'\r\n|\r|\n', old_code)))
         else:
             new_code = ''.join(sections[:section_index + 1])
         report.submission.replace_main(new_code)
